@@ -12,6 +12,7 @@ import Rsp.Model.Radmsg
 import Rsp.Spec.Radmsg
 import Rsp.Model.DynRealm
 import Rsp.Spec.Cert
+import Rsp.Model.Stream
 
 namespace Drive
 open Rsp
@@ -149,6 +150,55 @@ def showSer (r : Radmsg.SerRes) : String :=
   | .fail => "fail"
   | .fault => "fault:oobWrite"
   | .ok b a => s!"ok {toHex b} {toHex a}"
+
+/-! ### stream framing (tcpstream) -/
+
+def parseEv (t : String) : Option Stream.Ev :=
+  if t = "t" then some .stall else if t = "e" then some .eof
+  else if t.startsWith "w:" then (ofHex (t.drop 2).toString).map .data else none
+
+def showOuts (l : List Stream.Out) : String :=
+  "stream" ++ String.join (l.map fun
+    | .pkt b => " pkt:" ++ toHex b
+    | .timeout => " timeout"
+    | .closed c => s!" closed:{c}")
+
+def streamModel (args : List String) : String :=
+  match args with
+  | mode :: timeout :: evs =>
+    match timeout.toNat?, evs.mapM parseEv with
+    | some t, some evs =>
+      let s : Stream.Sock := { script := evs }
+      let fuel := (Stream.dataOf evs).length + evs.length + 4
+      if mode = "client" && t ≠ 0 then showOuts (Stream.clientLoop fuel s 0)
+      else if mode = "server" && t = 0 then showOuts (Stream.serverLoop fuel s)
+      else "bad-op"
+    | _, _ => "bad-op"
+  | _ => "bad-op"
+
+/-- C16 on what the implementation extracted: always a prefix of the stream's own framing; and when the
+    peer never stalls and closes at the end, exactly that framing -/
+def streamSpec (args impl : List String) : String :=
+  if impl.any (·.startsWith "crash") then "bad sanitizer-or-crash" else
+  match args with
+  | _ :: _ :: evs =>
+    match evs.mapM parseEv with
+    | none => "bad-op"
+    | some evs =>
+      let stream := Stream.dataOf evs
+      let want := Stream.framesOut (stream.length + 1) stream
+      let wantPk := want.filterMap fun | .pkt b => some b | _ => none
+      let gotPk := impl.filterMap fun t => if t.startsWith "pkt:" then ofHex (t.drop 4).toString else none
+      if !(gotPk.length ≤ wantPk.length && wantPk.take gotPk.length == gotPk) then
+        "bad C16:extracted-packets-are-not-a-prefix-of-the-stream's-own-framing"
+      else if !evs.contains .stall && evs.getLast? == some .eof && !(evs.dropLast.contains .eof) then
+        (if impl.contains "timeout" then "bad C16:timeout-reported-though-the-peer-never-stalled"
+         else if gotPk.length ≠ wantPk.length then "bad C16:packets-of-a-complete-stream-missing"
+         else match want.getLast?, impl.getLast? with
+           | some (.closed c), some t => if c ≠ -1 && t ≠ s!"closed:{c}" then "bad C16:invalid-length-field-did-not-end-the-connection" else "ok"
+           | _, _ => "ok")
+      else "ok"
+  | _ => "bad-op"
 
 /-! ### certificate authorisation (vcert) -/
 
@@ -312,6 +362,7 @@ def model (op : String) (args : List String) : String :=
     match ofHex c, ofHex i with
     | some c, some i => showLookup (DynRealm.dynLookup c i)
     | _, _ => "bad-op"
+  | "tcpstream", args => streamModel args
   | "decttl", [h] =>
     match ofHex h with
     | some v => let r := Ttl.decttl v; s!"{r.1} {toHex r.2}"
@@ -374,6 +425,7 @@ def model (op : String) (args : List String) : String :=
 
 def spec (op : String) (args impl : List String) : String :=
   match op, args, impl with
+  | "tcpstream", args, _ => streamSpec args impl
   | "dynrealm", [c, i], _ =>
     match ofHex c, ofHex i with
     | some c, some i => if impl.any (·.startsWith "crash") then "bad sanitizer-or-crash" else dynSpec c i impl
